@@ -7,6 +7,7 @@ import Ovldverif.Model.JsonH
 import Ovldverif.Model.Build
 import Ovldverif.Model.ClassBody
 import Ovldverif.Spec.ClassSpec
+import Ovldverif.Model.Normalize
 import Ovldverif.Spec.Types
 import Ovldverif.Spec.Resolve
 /-! Line-protocol driver: one JSON scenario per input line, one JSON result per output line. -/
@@ -300,6 +301,88 @@ def runJ (j : Json) : Except String Json := do
     ("spec", toJson specOK),
     ("calls", Json.arr out)]
 
+/-- layer B: normalisation of annotations and `subtler_type` (`Model/Normalize.lean`) -/
+partial def annOfJson (j : Json) : Except String Norm.Ann := do
+  let a ← jArr j
+  let k ← jStr a[0]!
+  let list (x : Json) : Except String (List Norm.Ann) := do (← jArr x).toList.mapM annOfJson
+  match k with
+  | "missing" => pure .missing
+  | "any" => pure .any
+  | "cls" => pure (.cls (← jNat a[1]!))
+  | "bareType" => pure .bareType
+  | "typeOf" => pure (.typeOf (← annOfJson a[1]!))
+  | "name" => pure (.name (← jStr a[1]!))
+  | "annotated" => pure (.annotated (← annOfJson a[1]!))
+  | "unionT" => pure (.unionT (← list a[1]!))
+  | "pipe" => pure (.pipe (← list a[1]!))
+  | "tup" => pure (.tup (← list a[1]!))
+  | "literal" => pure (.literal (← (← jArr a[1]!).toList.mapM jNat))
+  | "tupleG" => pure (.tupleG (← list a[1]!))
+  | "gen" => pure (.gen (← jNat a[1]!) (← list a[2]!))
+  | _ => throw s!"bad annotation kind {k}"
+
+partial def annToJson : Norm.Ann → Json
+  | .missing => Json.arr #[Json.str "missing"]
+  | .any => Json.arr #[Json.str "any"]
+  | .cls c => Json.arr #[Json.str "cls", toJson c]
+  | .bareType => Json.arr #[Json.str "bareType"]
+  | .typeOf a => Json.arr #[Json.str "typeOf", annToJson a]
+  | .name s => Json.arr #[Json.str "name", Json.str s]
+  | .annotated a => Json.arr #[Json.str "annotated", annToJson a]
+  | .unionT as => Json.arr #[Json.str "unionT", Json.arr (as.map annToJson).toArray]
+  | .pipe as => Json.arr #[Json.str "pipe", Json.arr (as.map annToJson).toArray]
+  | .tup as => Json.arr #[Json.str "tup", Json.arr (as.map annToJson).toArray]
+  | .literal vs => Json.arr #[Json.str "literal", toJson vs]
+  | .tupleG as => Json.arr #[Json.str "tupleG", Json.arr (as.map annToJson).toArray]
+  | .gen o as => Json.arr #[Json.str "gen", toJson o, Json.arr (as.map annToJson).toArray]
+
+partial def ntyToJson : Norm.NTy → Json
+  | .cls c => Json.arr #[Json.str "cls", toJson c]
+  | .rawType a => Json.arr #[Json.str "rawType", annToJson a]
+  | .union ms => Json.arr #[Json.str "union", Json.arr (ms.map ntyToJson).toArray]
+  | .lit vs b => Json.arr #[Json.str "lit", toJson vs, ntyToJson b]
+  | .prod ms => Json.arr #[Json.str "prod", Json.arr (ms.map ntyToJson).toArray]
+  | .fast h ms o => Json.arr #[Json.str "fast", toJson h, Json.arr (ms.map ntyToJson).toArray, toJson o]
+
+partial def tyToJsonB : Ty → Json
+  | .cls c => Json.arr #[Json.str "cls", toJson c]
+  | .gen o as => Json.arr #[Json.str "gen", toJson o, Json.arr (as.map tyToJsonB).toArray]
+  | _ => Json.arr #[Json.str "other"]
+
+def runB (j : Json) : Except String Json := do
+  let ej ← jField j "env"
+  let gl ← (← jArr (← jField ej "globals")).toList.mapM (fun p => do
+    let a ← jArr p
+    pure (← jStr a[0]!, ← annOfJson a[1]!))
+  let valcls ← (← jArr (← jField ej "valcls")).toList.mapM jNat
+  let hs ← (← jArr (← jField ej "handler")).toList.mapM (fun p => do
+    let a ← jArr p
+    pure (← jNat a[0]!, ← jNat a[1]!))
+  let subM ← boolMatrix (jFieldD ej "sub" (Json.arr #[]))
+  let mros ← (← jArr (jFieldD ej "mro" (Json.arr #[]))).toList.mapM (fun p => do (← jArr p).toList.mapM jNat)
+  let env : Norm.Env := { globals := fun s => (gl.find? (·.1 == s)).map (·.2),
+                          valCls := fun v => valcls[v]?.getD 0,
+                          handler := fun o => (hs.find? (·.1 == o)).map (·.2),
+                          sub := tableFn subM,
+                          mro := fun c => mros[c]?.getD [] }
+  let cT ← jNat (← jField j "cT")
+  let anns ← (← jArr (← jField j "anns")).toList.mapM annOfJson
+  let res := anns.map (fun a =>
+    match Norm.normalize env (a.size + 8) a with
+    | .ok t => ntyToJson t
+    | .error e => Json.arr #[Json.str "error", Json.str (match e with | .nameError => "name" | .noHandler => "nohandler" | .fuel => "fuel")])
+  let args ← (← jArr (jFieldD j "args" (Json.arr #[]))).toList.mapM (fun p => do
+    let a ← jArr p
+    let k ← jStr a[0]!
+    match k with
+    | "inst" => pure (Norm.PyArg.inst (← jNat a[1]!))
+    | "type" => pure (Norm.PyArg.typeVal (← tyOfJson a[1]!))
+    | "any" => pure Norm.PyArg.anyVal
+    | _ => throw "bad arg kind")
+  let sub := args.map (fun a => tyToJsonB (Norm.subtlerType cT a))
+  return Json.mkObj [("norm", Json.arr res.toArray), ("subtler", Json.arr sub.toArray)]
+
 /-- layer H: the model of `NameConverter` applied to an expression of the modelled subset -/
 def runH (j : Json) : Except String Json := do
   let es ← (← jArr (← jField j "exprs")).toList.mapM Ovld.Rw.exprOfJson
@@ -322,6 +405,7 @@ def runLine (line : String) : String :=
       | "H" => runH j
       | "I" => runI j
       | "J" => runJ j
+      | "B" => runB j
       | _ => throw s!"unknown layer {layer}"
     match r with
     | .ok v => v.compress
